@@ -55,15 +55,16 @@ HELPERS = ["where", "zeros_like", "ones_like", "result_type", "tree_shape", "vec
 
 
 # =====================================================================================  enumeration
-QUICK3 = ["add", "pow", "eq", "neg", "sum", "vdot", "norm2", "where", "mismatch", "stack", "unite", "mean"]
+QUICK2 = ["add", "pow", "eq", "neg", "sum", "vdot", "norm2", "where", "mismatch", "stack", "unite", "mean"]
+QUICK3 = ["add", "sum", "where", "stack"]
 
 
 def _typings(tier, nl):
     """list of (label, opclass, types)"""
     if tier == "quick":
-        rots = (0, 1, 2) if nl <= 1 else (0,) if nl == 2 else (1,)
+        rots = (0, 1) if nl <= 1 else (0,) if nl == 2 else (1,)
     else:
-        rots = range(6) if nl <= 2 else (0, 2, 4)
+        rots = range(6) if nl <= 2 else (1, 4)
     out = [("mixed%d" % r, "mixed", TYPES6[r:] + TYPES6[:r]) for r in rots]
     rr = (1,) if (tier == "quick" or nl == 3) else range(3)
     out += [("real%d" % r, "real", [("f8", s) for s in SHAPES3[r:] + SHAPES3[:r]]) for r in rr]
@@ -78,7 +79,9 @@ def cases(tier, seed):
         for tl, cls, types in _typings(tier, nl):
             spec = R.fill_types(st, types) if st is not None else ["L", types[0][0], list(types[0][1])]
             if tier == "quick" and nl == 3:
-                ops = QUICK3 if cls == "mixed" else (["lt", "min"] if cls == "real" else ["and", "floordiv"])
+                ops = QUICK3 if cls == "mixed" else (["lt"] if cls == "real" else [])
+            elif tier == "quick" and nl == 2 and R._depth(st) > 1:
+                ops = QUICK2 if cls == "mixed" else (["lt", "min"] if cls == "real" else ["and", "floordiv"])
             elif cls == "mixed":
                 ops = BINOPS + UNOPS + REDUCE + HELPERS
             elif cls == "real":
